@@ -37,11 +37,14 @@ class C15(Property):
             s = nu.Scenario()
             # some meshes have an unencrypted link: nodes 1 and 2 share no cipher and both allow plain (the others share one with each)
             plain12 = rng.random() < 0.4
+            # ... and in some one node has a lasting fault in a late housekeeping step (a beacon file it cannot read): its announcements
+            # must keep coming
+            faulty = rng.randrange(1, n + 1) if rng.random() < 0.4 else 0
             for i in range(1, n + 1):
                 al = nu.ALG
                 if plain12:
                     al = {1: "p|1:44160000", 2: "p|3:43c80000"}.get(i, "-|1:44160000,3:43c80000")
-                s.node(i, mode="tun-router", pt=tos[i - 1], claims=["%s/24" % bytes([10, 0, i, 0]).hex()], algos=al)
+                s.node(i, mode="tun-router", pt=tos[i - 1], claims=["%s/24" % bytes([10, 0, i, 0]).hex()], algos=al, hkf=(i == faulty))
             for i in range(2, n + 1):
                 s.add("C.%d.1" % i, "A")
             s.tick(3)
@@ -123,7 +126,7 @@ class C15(Property):
         return nu.model_line(line, impl_out) if line.startswith("node ") else line
 
     def canon_impl(self, line, out):
-        return nu.canon_impl(out) if line.startswith("node ") else (out if not out.startswith("panic") else "panic")
+        return nu.canon_impl(nu.strip_hkerr(line, out)) if line.startswith("node ") else (out if not out.startswith("panic") else "panic")
 
     def nontrivial(self, line, impl_out):
         return not line.endswith(" -")
